@@ -74,6 +74,26 @@ fn check(c: &BaseCase, obs: &mut Obs) -> Verdict {
         if let Some(d) = a.diff(&b, &format!("table {sec} (-b vs prepended purchase)")) { return Verdict::Fail(format!("{d}\n{}", ctx())); }
     }
     if let Some(d) = s1.aggregate.diff(&s2.aggregate, "aggregate gains") { return Verdict::Fail(format!("{d}\n{}", ctx())); }
+    // --total-costs: the run with prepended purchases shows one more dated row (the day of those purchases, in a year of its own) and
+    // otherwise the same rows.  Compared when no table is rejected and the default affiliate has a row of its own in every security with
+    // an opening position (the tables track securities by the default affiliate's rows).
+    if c.costs {
+        let opened: Vec<&String> = l.opening.iter().filter(|(sym, n, _)| !crate::bigrat::Rat::parse(n).unwrap().is_zero() && present(sym)).map(|o| &o.0).collect();
+        let default_has_rows = opened.iter().all(|sym| l.rows.iter().any(|r| &&r.sec == sym && !r.is_global_split() && r.act != Act::Split && affiliate_id(&r.af).0 == "default"));
+        let zero_share_cost = l.opening.iter().any(|(_, n, cst)| crate::bigrat::Rat::parse(n).unwrap().is_zero() && !crate::bigrat::Rat::parse(cst).map(|x| x.is_zero()).unwrap_or(true));
+        let rejected = s1.secs.values().chain(s2.secs.values()).any(|t| !t.errors.is_empty());
+        if !opened.is_empty() && default_has_rows && !zero_share_cost && !rejected {
+            if let (Some((t1, y1)), Some((t2, y2))) = (&s1.costs, &s2.costs) {
+                let d0 = first - Duration::days(400);
+                let (mut t2c, mut y2c) = (t2.clone(), y2.clone());
+                t2c.rows.retain(|r| r.first().map(|x| x.trim() != d0.to_string()).unwrap_or(true));
+                y2c.rows.retain(|r| r.first().map(|x| x.trim() != d0.year().to_string()).unwrap_or(true));
+                if let Some(d) = t1.diff(&t2c, "total costs (-b vs prepended purchase, its own day left out)").or_else(|| y1.diff(&y2c, "yearly max costs (-b vs prepended purchase, its own year left out)")) { return Verdict::Fail(format!("{d}\n{}", ctx())); }
+                obs.class("total-costs-compared");
+                if opened.iter().any(|sym| l.rows.iter().find(|r| &&r.sec == sym).map(|r| affiliate_id(&r.af).0 != "default").unwrap_or(false)) { obs.class("total-costs:first-row-of-opened-security-by-another-affiliate"); }
+            }
+        }
+    }
     // classification
     for (sym, _, _) in &l.opening {
         let rows: Vec<&HRow> = l.rows.iter().filter(|r| &r.sec == sym).collect();
@@ -132,8 +152,8 @@ fn binary_order(_tier: Tier, _seed: u64, idx: u64, _of: u64, stats: &mut Stats) 
 }
 
 pub fn def() -> PropDef {
-    let mut d = PropDef::new("C16", "generated inputs (ledger generator: several affiliates, global splits, early loss sales, optional total-costs) whose securities get opening positions (fractional, zero-cost, zero shares) given as SYM:n:c strings, plus opening positions of symbols absent from the input; compared with the same rows preceded by a Buy of n shares at price 0 with commission c by the default affiliate 400 days before the first row: every cell of every row of the original input, footers and the aggregate table must agree (money within 1e-9). Malformed specifications (wrong arity, empty symbol, non-numeric, negative) must be rejected, at binary level before any file is opened. Non-trivial = an opening position on a security with >= 2 affiliates, or with a split for all affiliates, or whose default affiliate has no rows; or a malformed specification. Distinct = distinct case content.");
-    d.assumptions = vec!["zero shares is compared with 'no purchase' (a Buy of zero shares is not a valid row)", "total-costs tables are not compared (the prepended purchase adds a dated row by construction)"];
+    let mut d = PropDef::new("C16", "generated inputs (ledger generator: several affiliates, global splits, early loss sales, optional total-costs) whose securities get opening positions (fractional, zero-cost, zero shares) given as SYM:n:c strings, plus opening positions of symbols absent from the input; compared with the same rows preceded by a Buy of n shares at price 0 with commission c by the default affiliate 400 days before the first row: every cell of every row of the original input, footers and the aggregate table must agree (money within 1e-9), and so must the --total-costs tables once the purchases' own day and year are left out (when nothing is rejected and the default affiliate has rows of its own in each opened security). Malformed specifications (wrong arity, empty symbol, non-numeric, negative) must be rejected, at binary level before any file is opened. Non-trivial = an opening position on a security with >= 2 affiliates, or with a split for all affiliates, or whose default affiliate has no rows; or a malformed specification. Distinct = distinct case content.");
+    d.assumptions = vec!["zero shares is compared with 'no purchase' (a Buy of zero shares is not a valid row)", "total-costs tables are compared with the prepended purchases' own day and year left out, when no security is rejected and the default affiliate has rows of its own in every security with an opening position"];
     d.subs.push(Box::new(Sub::<BaseCase> { name: "opening", cases_quick: 60_000, cases_thorough: 1_200_000, strategy: Box::new(strategy), to_json: BaseCase::to_json, from_json: BaseCase::from_json, check }));
     d.subs.push(Box::new(Sub::<BadSpec> { name: "malformed", cases_quick: 12_000, cases_thorough: 200_000, strategy: Box::new(bad_strategy), to_json: |c| json::object! { specs: c.specs.clone() }, from_json: |v| Some(BadSpec { specs: v["specs"].members().filter_map(|x| x.as_str().map(|s| s.to_string())).collect() }), check: check_bad }));
     d.extra = Some(binary_order);
